@@ -229,7 +229,10 @@ SplTerminalsZero(x, r, e) == \A i \in NodesOf(x) : (Msk(x, i) \/ SelfOnly(r, i))
 SplLakesZero(x, r, e) == \A i \in NodesOf(x) : (~SelfOnly(r, i) /\ At(e.rh, i) <= MinRecNext(r, e, i)) => At(e.ez, i) = 1
 SplFinite(x, e) == \A i \in NodesOf(x) : At(e.ecls, i) = 0
 SplNonNegative(x, e) == \A i \in NodesOf(x) : At(e.rhn, i) <= At(e.rh, i) + 2
-SplNoReversal(x, r, e) == \A i \in NodesOf(x) : ~SelfOnly(r, i) => At(e.rhn, i) >= MinRecNext(r, e, i) - 2
+\* a node that is eroded (non-zero erosion) is not lowered below its lowest receiver
+\* (rhnu: the recomputed elevation plus two ulps of the node's own magnitude - the erosion is
+\* returned rounded at that magnitude, so "not below" can only be meant up to it)
+SplNoReversal(x, r, e) == \A i \in NodesOf(x) : (~SelfOnly(r, i) /\ At(e.ez, i) = 0) => At(e.rhnu, i) >= MinRecNext(r, e, i)
 
 -----------------------------------------------------------------------------
 (* C13 - the step solves the implicit (backward Euler) equation.  Exact      *)
@@ -246,9 +249,17 @@ SplExactSolution(x, r, e) ==
      ELSE At(e.hi, i) = At(e.expect, i)
             + SumSeq([k \in DOMAIN RecSeq(r, i) |->
                  LET j == RecSeq(r, i)[k] IN At(e.f, i)[k] * PowN(At(e.expect, i) - At(e.expect, j), e.ncode)])
-\* depth of a node above its terminal (error accumulates along the path)
+\* The property speaks of the nodes whose erosion was NOT limited: nodes at the limiter's value
+\* (e.lim) and the nodes upstream of them (their receivers no longer have the expected elevation)
+\* are left out; the error of the others accumulates along the receiver path.
+SplClean(x, r, e) ==
+  LET RECURSIVE Up(_, _)
+      Up(S, k) == IF k = 0 THEN S
+                  ELSE LET T == S \cup {i \in NodesOf(x) : RecSetOf(r, i) \cap S # {}} IN IF T = S THEN S ELSE Up(T, k - 1)
+  IN NodesOf(x) \ Up({i \in NodesOf(x) : At(e.lim, i) = 1}, x.n)
+SplLimitedCount(x, e) == Cardinality({i \in NodesOf(x) : At(e.lim, i) = 1}) >= e.ncorr
 SplEncloses(x, r, e) ==
   LET lp == Longest(x, r) IN
-  \A i \in NodesOf(x) :
+  \A i \in SplClean(x, r, e) :
      Abs(At(e.eq, i) - (At(e.hi, i) - At(e.expect, i)) * 1048576) <= (lp[i] + 1) * (e.tolq + 4)
 =============================================================================
